@@ -97,6 +97,9 @@ def build(assign):
         from pycaption import CaptionList as _CL
 
         cs.set_captions(lang_codes()[len(assign) - 1], _CL())
+    # asking for a language the set does not have is a question, not an edit
+    cs.get_captions("zz-ZZ")
+    cs.get_layout_info("zz-ZZ")
     return cs
 
 
